@@ -230,7 +230,7 @@ theorem C07_keys (env : Env) (henv : ∀ k n, env k = some n → (n = .fc k ∧ 
         simp [evalRc, he] at hn; subst hn
         rcases henv kk m he with ⟨rfl, hc⟩ | h
         · simp [fcInit] at hf; subst hf; simp [fkeys] at hk; subst hk
-          exact ⟨by simp [condKeys, Expr.atoms], hc⟩
+          exact ⟨by simp [condKeys, Expr.atoms, Atom.condKey?], hc⟩
         · rw [h] at hf; cases hf
     | pkg kk r => simp [evalRc] at hn
     | time kk => simp [evalRc] at hn
